@@ -13,6 +13,7 @@ class RequestStreamRequester(StreamHandler, DefaultPublisherSubscription, Reques
         super().__init__(socket)
         self.payload = payload
         self._is_requested = False
+        self._request_n_before_request = []
 
     def setup(self):
         pass
@@ -26,6 +27,11 @@ class RequestStreamRequester(StreamHandler, DefaultPublisherSubscription, Reques
         self._is_requested = True
         self._send_stream_request(self.payload)
 
+        for n in self._request_n_before_request:  # requested from within on_subscribe: REQUEST_N must not precede the request
+            self.send_request_n(n)
+
+        self._request_n_before_request = []
+
     def cancel(self):
         if self._is_finished:
             return
@@ -37,6 +43,10 @@ class RequestStreamRequester(StreamHandler, DefaultPublisherSubscription, Reques
 
     def request(self, n: int):
         if self._is_finished:
+            return
+
+        if not self._is_requested:
+            self._request_n_before_request.append(n)
             return
 
         self.send_request_n(n)
